@@ -28,9 +28,20 @@ def sha(fn):
     return hashlib.sha256(open(fn, 'rb').read()).hexdigest()
 
 
+def h2_mol(name):
+    """A molecule the fingerprinter rejects (no heavy atom): Fingerprinter.run raises inside the conformer loop."""
+    from rdkit import Chem
+    from rdkit.Chem import AllChem
+    m = Chem.MolFromSmiles('[H][H]')
+    AllChem.EmbedMolecule(m, randomSeed=7)
+    m.SetProp('_Name', name)
+    return m
+
+
 def make_inputs(ctx, d, n_good, bad_kinds, rng, confs=(2, 3)):
-    """Write n_good readable SDF files (distinct molecule names) and the requested unreadable ones.
-    Returns [dict(path, kind, name, mol)]."""
+    """Write n_good readable SDF files (distinct molecule names) and the requested special ones:
+    garbage / empty / missing (unreadable), rejected (readable, the fingerprinter raises), unnamed (empty title line).
+    Returns [dict(path, kind, name, mol)]; kind 'good' | 'rejected' | 'unnamed' load, the others do not."""
     from e3fp.conformer.util import mol_to_sdf, mol_from_sdf
     os.makedirs(d, exist_ok=True)
     multi = [(t, m) for t, m in PG.shipped_mols() if m.GetNumConformers() >= 3]
@@ -45,12 +56,23 @@ def make_inputs(ctx, d, n_good, bad_kinds, rng, confs=(2, 3)):
         out.append({'path': fn, 'kind': 'good', 'name': nm, 'mol': mol_from_sdf(fn), 'tag': tag})
     for k, kind in enumerate(bad_kinds):
         fn = os.path.join(d, 'bad%d_%s.sdf' % (k, kind))
+        ent = {'path': fn, 'kind': kind, 'name': None, 'mol': None, 'tag': kind}
         if kind == 'garbage':
             open(fn, 'w').write('this is not\nan SD file\nat all\n$$$$\n')
         elif kind == 'empty':
             open(fn, 'w').write('')
-        out.append({'path': fn, 'kind': kind, 'name': None, 'mol': None, 'tag': kind})
+        elif kind == 'rejected':
+            mol_to_sdf(h2_mol('h2mol%d' % k), fn)
+            ent.update(name='h2mol%d' % k, mol=mol_from_sdf(fn))
+        elif kind == 'unnamed':
+            tag, base = multi[k % len(multi)]
+            mol_to_sdf(PG.make_mol(base, 2, ''), fn)
+            ent.update(name='', mol=mol_from_sdf(fn))
+        out.append(ent)
     return out
+
+
+LOADS = ('good', 'rejected', 'unnamed')
 
 
 def direct_loop(mol, name, bits, level, all_iters, first, fp_opts):
@@ -75,7 +97,7 @@ def direct_loop(mol, name, bits, level, all_iters, first, fp_opts):
 
 
 def input_lit(inp, loop):
-    if inp['kind'] != 'good':
+    if inp['kind'] not in LOADS:
         return 'Fails'
     return '(Loads %s %s)' % (optlit(inp['name'] or None, strlit), '(Raises %s)' % loop[1] if loop[0] == 'err' else '(Ok %s)' % PG.dict_lit(loop[1]))
 
@@ -118,41 +140,70 @@ def multiset(rows):
     return sorted((str(o['name']), tuple(o['idx']), tuple(o['cnt']), o['level'], o['bits'], o['kind']) for o in rows)
 
 
-def run(ctx):
+def effective_mode(mode, nproc):
+    """What python_utilities.parallel actually does for (parallel_mode, num_proc) here (no MPI): e.g. threads/processes
+    with num_proc=1 fall back to serial."""
+    from python_utilities.parallel import Parallelizer
+    para = Parallelizer(parallel_mode=mode, num_proc=nproc)
+    return para.parallel_mode, para.num_proc
+
+
+def run(ctx, only=None):
     ok, res = core.proof_step(ctx)
     rng = ctx.rng
     from rdkit import RDLogger
     RDLogger.DisableLog('rdApp.*')          # RDKit's C++ parser messages for the unreadable inputs
     cases, payloads, mexpr = [], {}, {}
-    found_input = False
-    dist = {'db_runs': 0, 'by_mode': {}, 'unreadable_inputs': 0, 'file_mode_runs': 0, 'subsets_stale': 0, 'subsets_crash': 0,
-            'overwrite_runs': 0, 'all_iters_runs': 0, 'conformer_runs': 0, 'db_and_files_resumes': 0}
+    state = {'found': False}
+    dist = {'db_runs': 0, 'by_requested_mode': {}, 'by_effective_mode': {}, 'completion_order_differs_from_submission': {},
+            'unreadable_inputs': 0, 'rejected_inputs': 0, 'unnamed_inputs': 0, 'params_file_runs': 0, 'file_mode_runs': 0,
+            'subsets_stale': 0, 'subsets_crash': 0, 'half_written_molecules': 0, 'overwrite_runs': 0, 'all_iters_runs': 0,
+            'conformer_runs': 0, 'db_and_files_runs': 0}
 
     def add_case(key, expr, payload, model_out=None):
+        payload = dict(payload, case_key=key)
         cases.append((key, expr))
         payloads[key] = payload
         if model_out:
             mexpr[key] = model_out
 
+    def pfail(key, what, payload, finding_key=None):
+        """A property-level failure observed on the implementation for case `key`."""
+        if only is not None and key != only:
+            return
+        state['found'] = True
+        ctx.fail(what, dict(payload, case_key=key), finding_key=finding_key, kind='property')
+
     from e3fp.fingerprint import generate as G
 
     # =========================================================================== A. database mode
     n_sets = ctx.n(5, 10)
-    mode_grid = [('serial', None), ('serial', 3), ('threads', 2), ('threads', 4), ('processes', 2), ('processes', 3), ('processes', 1),
-                 ('threads', 1), (None, 2), ('processes', 4), ('threads', 3)]
+    bad_cycle = [['garbage', 'rejected'], ['empty', 'missing'], ['rejected'], ['garbage', 'empty'], ['missing', 'rejected'], []]
+    wide = [('threads', 2), ('threads', 3), ('threads', 4), ('processes', 2), ('processes', 3), ('processes', 4), (None, 2), (None, 3)]
+    narrow = [('serial', 3), ('threads', 1), ('processes', 1)]           # these run serially: labelled by what actually ran
     for si in range(n_sets):
         d = os.path.join(ctx.workdir, 'db%d' % si)
-        n_good = rng.choice([4, 5, 6]) if ctx.quick else rng.choice([4, 5, 6, 7, 8])
-        bad = rng.choice([[], ['garbage'], ['empty', 'missing'], ['garbage', 'empty'], ['missing']])
-        inputs = make_inputs(ctx, d, n_good - min(len(bad), 2) if n_good - len(bad) >= 3 else n_good, bad, rng)
+        bad = bad_cycle[si % len(bad_cycle)]
+        n_good = rng.choice([3, 4, 5]) if ctx.quick else rng.choice([4, 5, 6, 7])
+        inputs = make_inputs(ctx, d, n_good, bad, rng)
         level = rng.choice([2, 3, -1, 0])
         bits = rng.choice([1024, 4096, 2 ** 32])
         first = rng.choice([1, 2, -1, 3])
         counts = rng.random() < 0.4
+        use_params = si == 1 or (not ctx.quick and si % 4 == 1)
+        params_file = None
+        if use_params:
+            params_file = os.path.join(d, 'params.cfg')
+            open(params_file, 'w').write('[fingerprinting]\nbits = %d\nlevel = %d\nfirst = %d\ncounts = %s\n' % (bits, level, first, counts))
+            dist['params_file_runs'] += 1
         fp_opts = {'counts': counts}
-        loops = [direct_loop(i['mol'], i['name'], bits, level, False, first, fp_opts) if i['kind'] == 'good' else None for i in inputs]
-        dist['unreadable_inputs'] += len(bad)
-        modes = [('serial', None)] + rng.sample(mode_grid[1:], ctx.n(3, 6))
+        loops = [direct_loop(i['mol'], i['name'], bits, level, False, first, fp_opts) if i['kind'] in LOADS else None for i in inputs]
+        dist['unreadable_inputs'] += sum(1 for b in bad if b in ('garbage', 'empty', 'missing'))
+        dist['rejected_inputs'] += bad.count('rejected')
+        # serial reference, then a threads and a processes run with >= 2 workers, then others
+        modes = [('serial', None), rng.choice([('threads', 2), ('threads', 3), ('threads', 4)]),
+                 rng.choice([('processes', 2), ('processes', 3), ('processes', 4)])]
+        modes += rng.sample(wide + narrow, ctx.n(1, 4))
         reference = None
         for mi, (mode, nproc) in enumerate(modes):
             order_in = list(range(len(inputs)))
@@ -160,49 +211,63 @@ def run(ctx):
                 rng.shuffle(order_in)
             files = [inputs[i]['path'] for i in order_in]
             dbf = os.path.join(d, 'out_%d.fpz' % mi)
-            r = fpgen.attempt(lambda: G.run(files, db_file=dbf, level=level, bits=bits, first=first, counts=counts,
-                                            parallel_mode=mode, num_proc=nproc))
+            eff = effective_mode(mode, nproc)
+            if params_file:
+                # the keyword values are deliberately different: the parameter file must win
+                call = lambda: G.run(files, db_file=dbf, params=params_file, level=0, bits=32, first=1, counts=not counts,
+                                     parallel_mode=mode, num_proc=nproc)
+            else:
+                call = lambda: G.run(files, db_file=dbf, level=level, bits=bits, first=first, counts=counts,
+                                     parallel_mode=mode, num_proc=nproc)
+            r = fpgen.attempt(call)
             db = load_db(dbf) if r[0] == 'ok' else None
             perm = completion_order([inputs[i] for i in order_in], db)
             comp = [order_in[p] for p in perm]
+            with_rows = [i for i in comp if inputs[i]['kind'] == 'good']
+            submitted = [i for i in order_in if inputs[i]['kind'] == 'good']
+            reordered = with_rows != [i for i in submitted if i in with_rows]
             cl = cfg_lit(level, False, None, '.fp.bz2', False)
             m = 'x_run %s [] %s true' % (cl, listlit([input_lit(inputs[i], loops[i]) for i in comp]))
-            exp = db_lit(db) if r[0] == 'ok' else None
             key = 'db/%d/%d' % (si, mi)
             payload = {'inputs_in_call_order': [(os.path.basename(inputs[i]['path']), inputs[i]['kind'], inputs[i]['name']) for i in order_in],
-                       'parallel_mode': mode, 'num_proc': nproc, 'level': level, 'bits': bits, 'first': first, 'counts': counts,
+                       'requested': {'parallel_mode': mode, 'num_proc': nproc}, 'actually_ran_as': {'parallel_mode': eff[0], 'num_proc': eff[1]},
+                       'level': level, 'bits': bits, 'first': first, 'counts': counts, 'params_file': bool(params_file),
                        'observed_completion_order': [inputs[i]['name'] or inputs[i]['kind'] for i in comp],
+                       'completion_order_differs_from_submission': reordered,
                        'db_rows': None if db is None else [o['name'] for o in db['rows']], 'run_outcome': r[0] if r[0] == 'ok' else r[1]}
             if r[0] != 'ok':
-                found_input = True
-                ctx.fail('run() raised in database mode', payload, kind='property')
+                pfail(key, 'run() raised in database mode', payload)
                 continue
-            add_case(key, 'db_eqb (fst (%s)) %s' % (m, exp), payload, 'fst (%s)' % m)
+            add_case(key, 'db_eqb (fst (%s)) %s' % (m, db_lit(db)), payload, 'fst (%s)' % m)
             ctx.count(('db', si, mode, nproc, tuple(order_in)), nontrivial=len(bad) > 0 or mi > 0)
             dist['db_runs'] += 1
-            dist['by_mode']['%s/%s' % (mode, nproc)] = dist['by_mode'].get('%s/%s' % (mode, nproc), 0) + 1
+            rk, ek = '%s/%s' % (mode, nproc), '%s/%s' % eff
+            dist['by_requested_mode'][rk] = dist['by_requested_mode'].get(rk, 0) + 1
+            dist['by_effective_mode'][ek] = dist['by_effective_mode'].get(ek, 0) + 1
+            if reordered:
+                dist['completion_order_differs_from_submission'][eff[0]] = dist['completion_order_differs_from_submission'].get(eff[0], 0) + 1
             # the property itself on the implementation: same named fingerprints as the serial reference, and as direct fingerprinting
             rows = [] if db is None else db['rows']
             if reference is None:
                 reference = multiset(rows)
                 direct = multiset([o for lp in loops if lp and lp[0] == 'ok' for k, col in lp[1] for o in col])
                 if reference != direct:
-                    found_input = True
-                    ctx.fail('the serial database differs from direct fingerprinting of the readable inputs', dict(payload, n_db=len(reference), n_direct=len(direct)), kind='property')
+                    pfail(key, 'the serial database differs from direct fingerprinting of the readable inputs', dict(payload, n_db=len(reference), n_direct=len(direct)))
             elif multiset(rows) != reference:
-                found_input = True
-                ctx.fail('database differs from the serial reference (as a multiset of named rows) under mode %s/%s' % (mode, nproc), payload, kind='property')
+                pfail(key, 'database differs from the serial reference (as a multiset of named rows); requested %s/%s, ran as %s/%s' % (mode, nproc, eff[0], eff[1]), payload)
 
     # =========================================================================== B. file mode: stale files and crashed runs
-    def file_experiment(tag, n_good, all_iters, level, bad, subsets_mode, mode=('serial', None)):
-        nonlocal found_input
+    def file_experiment(tag, n_good, all_iters, level, bad, sample, mode=('serial', None)):
         d = os.path.join(ctx.workdir, 'files_%s' % tag)
         inputs = make_inputs(ctx, d, n_good, bad, rng, confs=(2,))
         bits, first = 1024, rng.choice([1, 2])
         ext = rng.choice(['.fp.bz2', '.fp.gz', '.fp.pkl'])
-        loops = [direct_loop(i['mol'], i['name'], bits, level, all_iters, first, {}) if i['kind'] == 'good' else None for i in inputs]
+        loops = [direct_loop(i['mol'], i['name'], bits, level, all_iters, first, {}) if i['kind'] in LOADS else None for i in inputs]
         files = [i['path'] for i in inputs]
         levels = [level] if (level == -1 or not all_iters) else list(range(level + 1))
+        dist['unnamed_inputs'] += bad.count('unnamed')
+        dist['rejected_inputs'] += bad.count('rejected')
+        dist['unreadable_inputs'] += sum(1 for b in bad if b in ('garbage', 'empty', 'missing'))
 
         def out_paths(base):
             ps = []
@@ -216,37 +281,38 @@ def run(ctx):
         os.makedirs(os.path.dirname(ref_base))
         G.run(files, out_dir_base=ref_base, out_ext=ext, level=level, bits=bits, first=first, all_iters=all_iters, parallel_mode='serial')
         ref_paths = out_paths(ref_base)
-        ref_content = {p[0][len(ref_base):] + '/' + p[1]: PG.read_content(os.path.join(*p)) if os.path.isfile(os.path.join(*p)) else None for p in ref_paths}
         missing_ref = [p for p in ref_paths if not os.path.isfile(os.path.join(*p))]
         if missing_ref:
-            found_input = True
-            ctx.fail('an uninterrupted file-mode run did not write every level file of every readable input',
-                     {'inputs': [(os.path.basename(i['path']), i['kind'], i['name']) for i in inputs], 'all_iters': all_iters, 'level': level,
-                      'missing': [[p[0][len(ref_base):], p[1]] for p in missing_ref]}, kind='property')
+            pfail('files/%s/ref' % tag, 'an uninterrupted file-mode run did not write every level file of every readable input',
+                  {'inputs': [(os.path.basename(i['path']), i['kind'], i['name']) for i in inputs], 'all_iters': all_iters, 'level': level,
+                   'missing': [[p[0][len(ref_base):], p[1]] for p in missing_ref]})
+        ref_content = {p[0][len(ref_base):] + '/' + p[1]: PG.read_content(os.path.join(*p)) if os.path.isfile(os.path.join(*p)) else None for p in ref_paths}
         all_idx = list(range(len(ref_paths)))
-        if subsets_mode == 'all':
-            subsets = [list(s) for r_ in range(len(all_idx) + 1) for s in itertools.combinations(all_idx, r_)]
+        enumerate_all = len(all_idx) <= (4 if ctx.quick else 6)
+        if enumerate_all:
+            subsets = [list(s_) for r_ in range(len(all_idx) + 1) for s_ in itertools.combinations(all_idx, r_)]
         else:
-            subsets = [[], all_idx] + [[i for i in all_idx if rng.random() < 0.5] for _ in range(subsets_mode)]
-        for ui, (sub, flavour) in enumerate([(s, f) for s in subsets for f in ('stale', 'crash')]):
+            subsets = [[], all_idx] + [[i for i in all_idx if rng.random() < 0.5] for _ in range(sample)]
+        for ui, (sub, flavour) in enumerate([(s_, f) for s_ in subsets for f in ('stale', 'crash')]):
             base = os.path.join(d, 'r%d' % ui, 'fp')
             os.makedirs(os.path.dirname(base))
             paths = out_paths(base)
             fs0 = []
             for idx in sub:
-                p = paths[idx]
-                os.makedirs(p[0], exist_ok=True)
-                fn = os.path.join(*p)
+                p_ = paths[idx]
+                os.makedirs(p_[0], exist_ok=True)
+                fn = os.path.join(*p_)
                 if flavour == 'stale':
                     open(fn, 'wb').write(PG.SENTINEL % idx)
-                    fs0.append((p, ('sentinel', idx)))
+                    fs0.append((p_, ('sentinel', idx)))
                 else:
                     if not os.path.isfile(os.path.join(*ref_paths[idx])):
                         continue
                     shutil.copyfile(os.path.join(*ref_paths[idx]), fn)
-                    fs0.append((p, PG.read_content(fn)))
+                    fs0.append((p_, PG.read_content(fn)))
                 os.utime(fn, ns=(OLD_NS, OLD_NS))
-            before = {p: (sha(os.path.join(*p)), os.stat(os.path.join(*p)).st_mtime_ns) for p, _ in fs0}
+            pre = [p_ for p_, _ in fs0]
+            before = {p_: (sha(os.path.join(*p_)), os.stat(os.path.join(*p_)).st_mtime_ns) for p_ in pre}
             overwrite = flavour == 'stale' and ui % 7 == 3
             run_mode = mode if ui % 5 else rng.choice([('threads', 2), ('processes', 2), ('serial', None)])
             order_in = list(range(len(inputs)))
@@ -255,30 +321,37 @@ def run(ctx):
             r = fpgen.attempt(lambda: G.run([files[i] for i in order_in], out_dir_base=base, out_ext=ext, level=level, bits=bits, first=first,
                                             all_iters=all_iters, overwrite=overwrite, parallel_mode=run_mode[0], num_proc=run_mode[1]))
             after, written, untouched = [], [], []
-            for p in paths:
-                fn = os.path.join(*p)
+            for p_ in paths:
+                fn = os.path.join(*p_)
                 if os.path.isfile(fn):
                     c = PG.read_content(fn)
-                    after.append((p, c))
-                    st = os.stat(fn).st_mtime_ns
-                    if p in before and st == OLD_NS and sha(fn) == before[p][0]:
-                        untouched.append(p)
+                    after.append((p_, c))
+                    if p_ in before and os.stat(fn).st_mtime_ns == OLD_NS and sha(fn) == before[p_][0]:
+                        untouched.append(p_)
                     else:
-                        written.append(p)
+                        written.append(p_)
                 else:
-                    after.append((p, None))
+                    after.append((p_, None))
+            # a half-written molecule: some but not all of its files existed before the run
+            by_mol = {}
+            for idx, p_ in enumerate(paths):
+                by_mol.setdefault(p_[1], []).append(idx)
+            half = sum(1 for lst in by_mol.values() if 0 < sum(1 for i_ in lst if paths[i_] in pre) < len(lst))
+            dist['half_written_molecules'] += half
             cl = cfg_lit(level, all_iters, base, ext, overwrite)
             il = listlit([input_lit(inputs[i], loops[i]) for i in order_in])
             m = 'x_run %s %s %s false' % (cl, PG.fs_lit(fs0), il)
             lg = 'x_log %s %s %s' % (cl, PG.fs_lit(fs0), il)
             expr = ('fs_agrees (snd (%s)) %s && paths_subset %s (%s) && paths_subset (%s) %s && paths_disjoint %s (%s)'
-                    % (m, PG.fs_obs_lit(after), listlit([PG.path_lit(p) for p in written]), lg, lg, listlit([PG.path_lit(p) for p in written]),
-                       listlit([PG.path_lit(p) for p in untouched]), lg))
+                    % (m, PG.fs_obs_lit(after), listlit([PG.path_lit(p_) for p_ in written]), lg, lg, listlit([PG.path_lit(p_) for p_ in written]),
+                       listlit([PG.path_lit(p_) for p_ in untouched]), lg))
             key = 'files/%s/%d' % (tag, ui)
+            eff = effective_mode(*run_mode)
             payload = {'inputs': [(os.path.basename(inputs[i]['path']), inputs[i]['kind'], inputs[i]['name']) for i in order_in], 'all_iters': all_iters,
-                       'level': level, 'out_ext': ext, 'overwrite': overwrite, 'mode': run_mode, 'pre_existing': [[p[0][len(base):], p[1], c[0]] for p, c in fs0],
-                       'flavour': flavour, 'written': [[p[0][len(base):], p[1]] for p in written], 'untouched': [[p[0][len(base):], p[1]] for p in untouched],
-                       'after': [[p[0][len(base):], p[1], None if c is None else c[0]] for p, c in after], 'run_outcome': r[0] if r[0] == 'ok' else r[1]}
+                       'level': level, 'out_ext': ext, 'overwrite': overwrite, 'requested_mode': run_mode, 'actually_ran_as': eff,
+                       'pre_existing': [[p_[0][len(base):], p_[1], c[0]] for p_, c in fs0], 'half_written_molecules': half,
+                       'flavour': flavour, 'written': [[p_[0][len(base):], p_[1]] for p_ in written], 'untouched': [[p_[0][len(base):], p_[1]] for p_ in untouched],
+                       'after': [[p_[0][len(base):], p_[1], None if c is None else c[0]] for p_, c in after], 'run_outcome': r[0] if r[0] == 'ok' else r[1]}
             add_case(key, expr, payload, '(%s, snd (%s))' % (lg, m))
             ctx.count(('files', tag, ui, tuple(sub), flavour, overwrite), nontrivial=0 < len(sub) < len(paths) or overwrite)
             dist['file_mode_runs'] += 1
@@ -287,46 +360,40 @@ def run(ctx):
             dist['all_iters_runs'] += 1 if all_iters else 0
             # -- the property on the implementation
             if r[0] != 'ok':
-                found_input = True
-                ctx.fail('run() raised in file mode', payload, kind='property')
+                pfail(key, 'run() raised in file mode', payload)
                 continue
             probs = []
-            by_mol = {}
-            for idx, p in enumerate(paths):
-                by_mol.setdefault(p[1], []).append((idx, p))
-            for molfile, lst in by_mol.items():
-                have_all = all(idx in sub for idx, _ in lst)
-                for idx, p in lst:
-                    c = dict(after).get(p)
-                    refc = ref_content[p[0][len(base):] + '/' + p[1]]
-                    if not overwrite and have_all and p in written:
-                        probs.append('existing output %s of a complete molecule was rewritten by a no-overwrite run' % (p,))
-                    if refc is not None and c is None:
-                        probs.append('output %s is still missing after the re-run' % (p,))
-                    if refc is not None and c is not None and (overwrite or not have_all or flavour == 'crash') and c != refc:
-                        probs.append('output %s differs from the uninterrupted run' % (p,))
-                    if overwrite and refc is not None and p not in written:
-                        probs.append('output %s was not regenerated by an overwrite run' % (p,))
+            for idx, p_ in enumerate(paths):
+                c = dict(after).get(p_)
+                refc = ref_content[p_[0][len(base):] + '/' + p_[1]]
+                existed = p_ in pre
+                if not overwrite and existed and p_ in written:
+                    probs.append('existing output %s was rewritten (content or mtime changed) by a no-overwrite run' % (p_,))
+                if refc is not None and c is None:
+                    probs.append('output %s is still missing after the re-run' % (p_,))
+                if refc is not None and c is not None and (overwrite or not existed or flavour == 'crash') and c != refc:
+                    probs.append('output %s differs from the uninterrupted run' % (p_,))
+                if overwrite and refc is not None and p_ not in written:
+                    probs.append('output %s was not regenerated by an overwrite run' % (p_,))
             if probs:
-                found_input = True
-                ctx.fail('file-mode resume: ' + '; '.join(probs[:3]), dict(payload, problems=probs[:8]), kind='property')
+                pfail(key, 'file-mode resume: ' + '; '.join(probs[:3]), dict(payload, problems=probs[:8]))
 
     if ctx.quick:
-        file_experiment('a', 2, True, 1, [], 'all')                 # 4 files: all 16 subsets x {stale, crash}
-        file_experiment('b', 3, False, 2, ['garbage'], 'all')       # 3 files: all 8 subsets
-        file_experiment('c', 3, True, 2, ['missing'], 6)
-        file_experiment('d', 2, True, 1, ['empty'], 'all', mode=('threads', 2))
-        file_experiment('e', 3, False, 2, [], 'all', mode=('processes', 2))
+        file_experiment('a', 2, True, 1, [], 0)                             # 4 files: all 16 subsets x {stale, crash}
+        file_experiment('b', 3, False, 2, ['garbage', 'unnamed'], 0)        # 3 files: all 8 subsets
+        file_experiment('c', 3, True, 2, ['missing', 'rejected'], 8)        # 9 files: sampled
+        file_experiment('d', 2, True, 1, ['empty'], 0, mode=('threads', 2))
+        file_experiment('e', 3, False, 2, [], 0, mode=('processes', 2))
     else:
-        file_experiment('a', 2, True, 1, [], 'all')
-        file_experiment('a2', 2, True, 2, ['empty'], 'all')          # 6 files: 64 subsets
-        file_experiment('b', 4, False, 2, ['garbage'], 'all')       # 4 files
-        file_experiment('b2', 4, False, -1, ['missing', 'empty'], 'all')
-        file_experiment('c', 4, True, 2, ['missing'], 60)
-        file_experiment('d', 3, True, 1, [], 'all', mode=('threads', 3))
-        file_experiment('e', 3, False, 3, ['garbage'], 'all', mode=('processes', 2))
+        file_experiment('a', 2, True, 1, [], 0)
+        file_experiment('a2', 2, True, 2, ['empty', 'rejected'], 0)         # 6 files: 64 subsets
+        file_experiment('b', 4, False, 2, ['garbage', 'unnamed'], 0)
+        file_experiment('b2', 4, False, -1, ['missing', 'empty'], 0)
+        file_experiment('c', 4, True, 2, ['missing', 'rejected'], 60)        # 12 files: sampled
+        file_experiment('d', 3, True, 1, [], 0, mode=('threads', 3))
+        file_experiment('e', 3, False, 3, ['garbage'], 0, mode=('processes', 2))
 
-    # =========================================================================== C. database AND output directory, resumed
+    # =========================================================================== C. database AND output directory
     d = os.path.join(ctx.workdir, 'both')
     inputs = make_inputs(ctx, d, 3, [], rng, confs=(2,))
     files = [i['path'] for i in inputs]
@@ -334,35 +401,51 @@ def run(ctx):
     os.makedirs(os.path.dirname(base))
     dbf = os.path.join(d, 'both.fpz')
     loops = [direct_loop(i['mol'], i['name'], 1024, 2, False, 2, {}) for i in inputs]
+    rows_of = [multiset([o for k, col in lp[1] for o in col]) for lp in loops]
     G.run(files, db_file=dbf, out_dir_base=base, level=2, bits=1024, first=2, parallel_mode='serial')
     db1 = load_db(dbf)
     m1 = 'x_run %s [] %s true' % (cfg_lit(2, False, base, '.fp.bz2', False), listlit([input_lit(i, l) for i, l in zip(inputs, loops)]))
     add_case('both/fresh', 'db_eqb (fst (%s)) %s' % (m1, db_lit(db1)), {'inputs': [i['name'] for i in inputs], 'db_rows': None if db1 is None else [o['name'] for o in db1['rows']]},
              'fst (%s)' % m1)
     ctx.count(('both', 'fresh'), True)
-    direct = multiset([o for lp in loops if lp[0] == 'ok' for k, col in lp[1] for o in col])
+    dist['db_and_files_runs'] += 1
+    direct = sorted(sum(rows_of, []))
     if db1 is None or multiset(db1['rows']) != direct:
-        found_input = True
-        ctx.fail('run(db_file=..., out_dir_base=...) into a fresh directory: the database differs from direct fingerprinting',
-                 {'inputs': [i['name'] for i in inputs], 'db_rows': None if db1 is None else [o['name'] for o in db1['rows']]}, kind='property')
-    victim = inputs[1]
-    os.remove(os.path.join(base + '2', victim['name'] + '.fp.bz2'))
-    fs0 = [((base + '2', i['name'] + '.fp.bz2'), PG.read_content(os.path.join(base + '2', i['name'] + '.fp.bz2'))) for i in inputs if i is not victim]
-    os.remove(dbf)
-    G.run(files, db_file=dbf, out_dir_base=base, level=2, bits=1024, first=2, parallel_mode='serial')
-    db2 = load_db(dbf)
-    m = 'x_run %s %s %s true' % (cfg_lit(2, False, base, '.fp.bz2', False), PG.fs_lit(fs0), listlit([input_lit(i, l) for i, l in zip(inputs, loops)]))
-    add_case('both/resume', 'db_eqb (fst (%s)) %s' % (m, db_lit(db2)),
-             {'inputs': [i['name'] for i in inputs], 'deleted_output_of': victim['name'], 'db_rows_first_run': [o['name'] for o in db1['rows']],
-              'db_rows_resumed_run': None if db2 is None else [o['name'] for o in db2['rows']]}, 'fst (%s)' % m)
-    ctx.count(('both', 'resume'), True)
-    dist['db_and_files_resumes'] += 1
-    if db2 is None or multiset(db2['rows']) != multiset(db1['rows']):
-        found_input = True
-        ctx.fail('run(db_file=..., out_dir_base=...) re-run after an interruption: molecules whose files already exist are skipped and are missing '
-                 'from the database the re-run writes (it holds only the recomputed molecules)',
-                 {'inputs': [i['name'] for i in inputs], 'deleted_output_of': victim['name'], 'db_rows_first_run': [o['name'] for o in db1['rows']],
-                  'db_rows_resumed_run': None if db2 is None else [o['name'] for o in db2['rows']]}, finding_key=RESUME_DB_KEY, kind='property')
+        pfail('both/fresh', 'run(db_file=..., out_dir_base=...) into a fresh directory: the database differs from direct fingerprinting',
+              {'inputs': [i['name'] for i in inputs], 'db_rows': None if db1 is None else [o['name'] for o in db1['rows']]})
+
+    def resumed(tag, victims):
+        """Delete the outputs of `victims` and the database, re-run.  The known finding is reported only for exactly its
+        documented outcome: the new database lacks exactly the rows of the skipped molecules (none written if all skipped)."""
+        for v in victims:
+            os.remove(os.path.join(base + '2', inputs[v]['name'] + '.fp.bz2'))
+        fs0 = [((base + '2', i['name'] + '.fp.bz2'), PG.read_content(os.path.join(base + '2', i['name'] + '.fp.bz2')))
+               for k, i in enumerate(inputs) if k not in victims]
+        if os.path.exists(dbf):
+            os.remove(dbf)
+        G.run(files, db_file=dbf, out_dir_base=base, level=2, bits=1024, first=2, parallel_mode='serial')
+        db2 = load_db(dbf)
+        m = 'x_run %s %s %s true' % (cfg_lit(2, False, base, '.fp.bz2', False), PG.fs_lit(fs0), listlit([input_lit(i, l) for i, l in zip(inputs, loops)]))
+        key = 'both/' + tag
+        payload = {'inputs': [i['name'] for i in inputs], 'deleted_outputs_of': [inputs[v]['name'] for v in victims],
+                   'db_rows_uninterrupted_run': [o['name'] for o in db1['rows']],
+                   'db_rows_resumed_run': None if db2 is None else [o['name'] for o in db2['rows']]}
+        add_case(key, 'db_eqb (fst (%s)) %s' % (m, db_lit(db2)), payload, 'fst (%s)' % m)
+        ctx.count(('both', tag), True)
+        dist['db_and_files_runs'] += 1
+        got = [] if db2 is None else multiset(db2['rows'])
+        recomputed_only = sorted(sum([rows_of[v] for v in victims], []))
+        if got == direct:
+            return                                                  # complete database: the defect is gone
+        if got == recomputed_only and len(victims) < len(inputs):
+            pfail(key, 'run(db_file=..., out_dir_base=...) re-run after an interruption: molecules whose files already exist are skipped and are missing '
+                       'from the database the re-run writes (it holds only the recomputed molecules; none is written when all are skipped)',
+                  payload, finding_key=RESUME_DB_KEY)
+        else:
+            pfail(key, 'run(db_file=..., out_dir_base=...) re-run after an interruption: the database is neither complete nor the recomputed molecules only',
+                  payload)
+    resumed('resume', [1])
+    resumed('resume-all-skipped', [])
 
     # =========================================================================== D. generate_conformers(save=True)
     from e3fp.conformer.generate import generate_conformers
@@ -379,73 +462,77 @@ def run(ctx):
         fs0 = []
         chosen = rng.sample(smis, rng.choice([2, 3]))
         for k, (smi, nm) in enumerate(chosen):
-            p = (cd, '%s.sdf%s' % (nm, ext))
+            p_ = (cd, '%s.sdf%s' % (nm, ext))
             if rng.random() < 0.5:
-                open(os.path.join(*p), 'wb').write(PG.SENTINEL % k)
-                os.utime(os.path.join(*p), ns=(OLD_NS, OLD_NS))
-                fs0.append((p, ('sentinel', k)))
+                open(os.path.join(*p_), 'wb').write(PG.SENTINEL % k)
+                os.utime(os.path.join(*p_), ns=(OLD_NS, OLD_NS))
+                fs0.append((p_, ('sentinel', k)))
         untouched_ok = True
         after = []
         for k, (smi, nm) in enumerate(chosen):
-            p = (cd, '%s.sdf%s' % (nm, ext))
+            p_ = (cd, '%s.sdf%s' % (nm, ext))
             mol = mol_from_smiles(smi, nm)
             r = fpgen.attempt(lambda: generate_conformers(mol, nm, save=True, out_dir=cd, num_conf=2, seed=11, compress=compress, overwrite=overwrite,
                                                           standardise=False))
-            returned = r[0] == 'ok' and r[1] is not False
-            obs_r.append(returned)
-            calls.append('(%s, Some (Pickled []))' % PG.path_lit(p))
+            obs_r.append(r[0] == 'ok' and r[1] is not False)
+            calls.append('(%s, Some (Pickled []))' % PG.path_lit(p_))
         for k, (smi, nm) in enumerate(chosen):
-            p = (cd, '%s.sdf%s' % (nm, ext))
-            fn = os.path.join(*p)
+            p_ = (cd, '%s.sdf%s' % (nm, ext))
+            fn = os.path.join(*p_)
             if not os.path.isfile(fn):
-                after.append((p, None))
+                after.append((p_, None))
                 continue
             c = PG.read_content(fn)
             if c[0] == 'sentinel':
                 if os.stat(fn).st_mtime_ns != OLD_NS:
                     untouched_ok = False
-                after.append((p, c))
+                after.append((p_, c))
             else:
                 ok_sdf = fpgen.attempt(lambda: mol_from_sdf(fn).GetNumConformers() >= 1)
-                after.append((p, ('pickled', [])) if ok_sdf == ('ok', True) else (p, ('sentinel', -1)))
+                after.append((p_, ('pickled', [])) if ok_sdf == ('ok', True) else (p_, ('sentinel', -1)))
         m = 'x_cg_run %s %s %s' % (blit(overwrite), PG.fs_lit(fs0), listlit(calls))
         expr = 'let r := %s in list_eqb Bool.eqb (fst r) %s && fs_agrees (snd r) %s' % (m, listlit([blit(b) for b in obs_r]), PG.fs_obs_lit(after))
-        payload = {'molecules': chosen, 'overwrite': overwrite, 'compress': compress, 'pre_existing': [p[1] for p, _ in fs0], 'returned_not_False': obs_r,
-                   'after': [[p[1], None if c is None else c[0]] for p, c in after]}
+        payload = {'molecules': chosen, 'overwrite': overwrite, 'compress': compress, 'pre_existing': [p_[1] for p_, _ in fs0], 'returned_not_False': obs_r,
+                   'after': [[p_[1], None if c is None else c[0]] for p_, c in after]}
         add_case('cg/%d' % ci, expr, payload, m)
         ctx.count(('cg', ci, str(payload)), nontrivial=bool(fs0))
         dist['conformer_runs'] += 1
         if not untouched_ok:
-            found_input = True
-            ctx.fail('generate_conformers(save=True, overwrite=False) touched an existing output file', payload, kind='property')
+            pfail('cg/%d' % ci, 'generate_conformers(save=True, overwrite=False) touched an existing output file', payload)
 
+    if only is not None:
+        cases = [c for c in cases if c[0] == only]
     for k in cases[:1] + [c for c in cases if c[0].startswith('files/')][3:5] + [c for c in cases if c[0].startswith('cg/')][:1]:
         ctx.sample({'case': k[0], 'input_and_implementation_result': payloads[k[0]], 'model_check': k[1][:300]})
-    nbad = core.compare_cases(ctx, cases, IMPORTS, 'C15 batch runs', payloads, model_expr=mexpr, shard=12)
-    found_input = found_input or nbad > 0
-    ctx.coverage['rule'] = ('run() on 3-8 SDF files (shipped molecules cut to 2-3 conformers, distinct names; 0-2 unreadable: garbage / empty / missing) '
-                            'x parallel_mode {serial, threads, processes, default} x num_proc 1-4 x shuffled input order, database compared with the model in the observed '
-                            'completion order, with the serial reference and with direct fingerprinting; file mode: every subset of the output files (<= 6 files; sampled '
-                            'above) pre-created as stale sentinel files or as copies from a finished run (a crashed run), with/without overwrite, both all_iters settings, '
-                            'SHA-256 + mtime_ns before/after; generate_conformers(save=True) with pre-existing files.  Non-trivial: a non-serial or shuffled db run or one with '
-                            'unreadable inputs; a proper non-empty subset of pre-existing files or overwrite.')
+    nbad = core.compare_cases(ctx, cases, IMPORTS, 'C15 batch runs', payloads, model_expr=mexpr, shard=12) if (cases or only is None) else 0
+    found_input = state['found'] or nbad > 0
+    ctx.coverage['rule'] = ('run() on 3-9 SDF files (shipped molecules cut to 2-3 conformers, distinct names; plus unreadable inputs: garbage / empty / missing, a molecule '
+                            'the fingerprinter rejects, an unnamed molecule) x requested parallel_mode {serial, threads, processes, default} x num_proc 1-4 (every set has a '
+                            'threads and a processes run with >= 2 workers; runs are labelled by the mode python_utilities actually used) x shuffled input order, once through '
+                            'run(params=file); database compared with the model in the observed completion order, with the serial reference and with direct fingerprinting; '
+                            'file mode: every subset of the output files (<= 4 files quick, <= 6 thorough; sampled above) pre-created as stale sentinel files or as copies from a '
+                            'finished run (a crashed run, including half-written all_iters molecules), with/without overwrite, both all_iters settings, SHA-256 + mtime_ns of EVERY '
+                            'pre-existing file before/after; generate_conformers(save=True) with pre-existing files.  Non-trivial: a non-serial or shuffled db run or one with '
+                            'special inputs; a proper non-empty subset of pre-existing files or overwrite.')
     ctx.coverage['input_distribution'] = dist
     ctx.assumptions += [
         'PARTIAL: the order in which a thread/process pool completes jobs and the atomicity of a file write are the runtime\'s; the theorems quantify over every '
-        'completion order and every per-molecule prefix of whole-file writes, the correspondence runs the pools that python_utilities offers without MPI',
-        'a file truncated by a crash in the middle of a write exists for os.path.isfile and is kept by a no-overwrite re-run: outside a model of whole-file writes '
-        '(hypothesis `consistent` of crash_then_resume)',
+        'completion order and every per-molecule prefix of whole-file writes, the correspondence runs the pools that python_utilities offers without MPI; how often '
+        'the observed completion order differed from the submission order is counted in input_distribution.completion_order_differs_from_submission',
+        'a file truncated by a crash in the middle of a write exists for os.path.isfile and is kept by a no-overwrite re-run like any existing file (resume_preserves); '
+        'whether it is a complete pickle is outside a model of whole-file writes',
         'inputs carry distinct molecule names (hypothesis NoDup (saved_names order)); shared_path_schedule_dependent shows what happens otherwise',
-        'the per-input conformer-loop result is an input of the model (computed in the harness by direct Fingerprinter use); its relation to the molecule is C14',
+        'the per-input conformer-loop result is an input of the model (computed in the harness by direct Fingerprinter use); its relation to the molecule is C14 '
+        '(worker_is_entry_point ties the two models)',
         'workers act on the directory one after the other in completion order in the model: adequate for concurrent workers because output paths are disjoint',
         'FingerprintDatabase.add_fingerprints / savez / load are model M3 (C05, C08); here rows are compared through db[i]']
-    ctx.coverage['trusted_base'] = ['no Section hypotheses beyond the premises printed in Properties/C15.v (disjoint / wf_job / all_or_nothing / consistent, '
-                                    'each derived for run() by worker_refines_job and jobs_disjoint from level_ok, input_ok and distinct names)']
-    if not ok:
+    ctx.coverage['trusted_base'] = ['premises left in Properties/C15.v: disjoint + wf_job (files_schedule_independent, resume_completes, overwrite_regenerates, crash_then_resume*), '
+                                    'complete (resume_completes), none for resume_preserves; each is derived for run() by worker_refines_job / jobs_disjoint from level_ok and '
+                                    'NoDup (saved_names order); c_base = None for the db theorems (db_with_files_partial extends them to fresh db+files runs)']
+    if not ok and only is None:
         core.report_broken_proof(ctx, res, found_input)
 
 
 def replay(ctx, path):
-    d = json.load(open(path))
-    print(json.dumps(d, indent=1)[:6000])
-    return 0
+    """Re-run the recorded case on both sides (same seed and tier => same generated inputs); exit 1 + VIOLATION if it still fails."""
+    return PG.replay_case(ctx, path, run)
